@@ -72,11 +72,11 @@ def queries(tier):
     qs = [R(2, 1, 1, 2, 6), R(2, 2, 1, 2, 10), R(2, 2, 2, 2, 10), R(3, 2, 2, 2, 14), R(2, 3, 2, 3, 16),
           G(9, 5, 4, 3), G(6, 4, 8, 8), G(7, 3, 2, 2), G(5, 2, 2, 4), G(1, 3, 1, 3)]
     if tier == "thorough":
-        for (w, h) in [(3, 2), (2, 3), (3, 3), (4, 2)]:
-            for sc in range(1, 4):
-                for sr in range(1, 4):
+        for (w, h) in [(3, 3)]:
+            for sc in (2, 3):
+                for sr in (2, 3):
                     q = R(w, h, sc, sr, 2 * min(sc, w) * 0 + 22, to=2400)
                     if q.name not in [x.name for x in qs]:
                         qs.append(q)
-        qs += [G(17, 9, 6, 4, to=2400), G(12, 7, 8, 7, to=2400), G(5, 9, 3, 8, to=2400), R(3, 3, 2, 2, 14, to=2400), R(3, 2, 3, 4, 16, to=2400)]
+        qs += [G(17, 9, 6, 4, to=2400), G(12, 7, 8, 7, to=2400), G(5, 9, 3, 8, to=2400)]
     return qs
